@@ -93,6 +93,8 @@ def evalClosure (rec : St → Sx → Res) (st : St) (clo : Sx) (args : List Sx) 
   | .clo cenv params body _ => do
     let save := st.env
     let (binds, st1) ← bindParams rec st params args
+    -- the captured environment is a live Python object; in the model it must be an allocated frame
+    if cenv ≥ st1.frames.size then .error (.unsupported "closure environment outside the frame heap") else
     let (st2, fid) := st1.pushFrame (some cenv) binds
     let (v, st3) ← rec { st2 with env := fid } body
     pure (v, { st3 with env := save })
